@@ -8,7 +8,8 @@ UNITS = []
 UNDERLIES = {
     # the per-thread pipeline in the backend: read, decode, admit, select, process, write
     'BW.read_decode[bounded]': {'C06', 'C07'}, 'BW.read_decode[unbounded]': {'C06', 'C07'}, 'BW.read_unbounded': {'C06', 'C07'}, 'BW.populate': {'C06', 'C07'}, 'BW.populate_all': {'C06', 'C07'},
-    'BW.process_lowest': {'C06', 'C07'}, 'BW.process_event': {'C07'}, 'BW.write_stmt': {'C06', 'C07'}, 'BW.poll': {'C07'},
+    'BW.process_lowest': {'C06', 'C07'}, 'BW.process_event': {'C07'}, 'BW.write_stmt': {'C06', 'C07', 'C12'},   # C12: which pattern a sink's line is formatted with (seed C12-E3 = C16-A5 seen from C12)
+    'BW.poll': {'C07'},
     # the sink end of "written and flushed"
     'BW.flush_sinks': {'C07'}, 'BW.collect_sinks': {'C07'}, 'SS.write_log': {'C07'}, 'SS.flush_sink': {'C07'}, 'FS.flush_sink': {'C07'},
     # the record header: what the frontend writes is what the backend reads (a statement attributed to the wrong logger / metadata is not 'delivered once')
